@@ -1,2 +1,46 @@
-(** C15 — statements only; see Proofs/. *)
-From RRSS Require Import Base.Outcome.
+(** C15 — Renaming variables and re-casing names or keywords never changes behaviour.
+    Statements only; proofs in Proofs/NameLaws.v.  These theorems cover how names become
+    symbol-table keys; the invariance of whole executions under renaming is established by the
+    renaming oracle and the correspondence (see the evidence), not by a theorem. *)
+From Coq Require Import List ZArith NArith Bool.
+From RRSS Require Import Base.Outcome Base.Chars Front.Ast Front.Token Exec.Env Proofs.NameLaws.
+Import ListNotations.
+
+(** the key of a name is its lower-casing, word by word — for every Unicode letter (table facts
+    checked over the complete tables inside Coq) *)
+Theorem C15_lower_name_is_fold : forall n, lower_name n = fold_name n.
+Proof. exact lower_name_is_fold. Qed.
+
+(** names are compared without regard to letter case *)
+Theorem C15_same_fold_same_key : forall a b, fold_name a = fold_name b -> lower_name a = lower_name b.
+Proof. exact same_fold_same_key. Qed.
+
+Theorem C15_key_is_stable : forall n, lower_name (lower_name n) = lower_name n.
+Proof. exact key_is_stable. Qed.
+
+(** simple, common and proper names are distinct kinds of name: they never collide *)
+Theorem C15_kinds_are_distinct :
+  forall a b, varname_eqb (lower_name a) (lower_name b) = true ->
+  match a, b with
+  | Simple _, Simple _ | Common _ _, Common _ _ | Proper _, Proper _ => True
+  | _, _ => False
+  end.
+Proof. exact kinds_are_distinct. Qed.
+
+(** distinct spellings denote distinct variables *)
+Theorem C15_distinct_spellings_distinct_keys :
+  forall a b, fold_name a <> fold_name b -> varname_eqb (lower_name a) (lower_name b) = false.
+Proof. exact distinct_spellings_distinct_keys. Qed.
+
+(** keywords are recognised in any letter case: the lookup lower-cases the word first *)
+Theorem C15_keyword_case_insensitive :
+  forall w1 w2, str_to_lowercase w1 = str_to_lowercase w2 -> match_keyword w1 = match_keyword w2.
+Proof. exact keyword_case_insensitive. Qed.
+
+Example C15_example :
+  lower_name (Common (lit "My") (lit "HEART")) = lower_name (Common (lit "my") (lit "heart")) /\
+  lower_name (Simple [201; 84; 201]%N) = lower_name (Simple [233; 116; 233]%N) /\
+  match_keyword (lit "KnOcK") = Some TKnock /\ match_keyword [8490; 110; 111; 99; 107]%N = Some TKnock.
+Proof. vm_compute. repeat split; reflexivity. Qed.
+
+Print Assumptions C15_lower_name_is_fold.
